@@ -1,4 +1,7 @@
+#[cfg(not(cosmian_cover_crypt_verif))]
 use std::sync::{Mutex, MutexGuard};
+#[cfg(cosmian_cover_crypt_verif)]
+use crate::verif_hooks::{Mutex, MutexGuard};
 
 use cosmian_crypto_core::{reexport::rand_core::SeedableRng, CsRng, Secret, SymmetricKey};
 use zeroize::Zeroizing;
@@ -25,6 +28,16 @@ impl Default for Covercrypt {
     fn default() -> Self {
         Self {
             rng: Mutex::new(CsRng::from_entropy()),
+        }
+    }
+}
+
+#[cfg(cosmian_cover_crypt_verif)]
+impl Covercrypt {
+    /// Verification seam: an instance whose generator is seeded by the caller.
+    pub fn verif_from_seed(seed: [u8; 32]) -> Self {
+        Self {
+            rng: Mutex::new(CsRng::from_seed(seed)),
         }
     }
 }
